@@ -1,4 +1,5 @@
 """C12 — recurrence queries agree with the listed sequence."""
+import datetime
 import basecorr, rrlib
 from rrlib import q_wire, impl_query, py_query, ints, ilist
 
@@ -12,8 +13,8 @@ TRUSTED = [
 ]
 ASSUMPTIONS = [
     "the recurrence yields a finite strictly increasing sequence (C01 for rrule, C10 for rruleset); infinite rules are outside C12's statement",
-    "replace(): proved at the argument level (constructor applied to recorded arguments with the named parameters overridden); the recorded "
-    "arguments are read off the real object (query.replace op); their derivation from the constructor model (origArgs) is on C01's branch, not on main",
+    "replace(): proved on C01's constructor model (replace = construct(origArgs (+) kw), replace() = r); tied to the code by query.replace from the "
+    "ORIGINAL constructor arguments; the literal bysetpos=() is excluded from replace_nothing_id (stored as (), not recorded, rebuilt as None)",
     "datetimes are mapped to integers (seconds since 2020-01-01) order-isomorphically; comparison of datetimes is CPython's",
 ]
 RULE = ("rules: SECONDLY/MINUTELY/HOURLY/DAILY/WEEKLY with interval, byweekday and count 0..14, and rrulesets of them; "
@@ -166,6 +167,24 @@ def oracle(ctx):
 def oracle_replace(ctx, rng):
     """replace(): a rule differing only in the named parameters (compared through what it yields and its recorded arguments)"""
     from dateutil import rrule as R
+    # targeted: a plain rule's weekday / month day / month follow a replaced dtstart
+    for freq in (R.YEARLY, R.MONTHLY, R.WEEKLY, R.DAILY, R.HOURLY):
+        for cache in (False, True):
+            for delta in list(range(1, 9)) + [40]:
+                d0 = datetime.datetime(2021, 3, 3, 4, 5, 6)
+                d1 = d0 + datetime.timedelta(days=delta)
+                r = R.rrule(freq, dtstart=d0, count=4, cache=cache)
+                if cache:
+                    list(r)
+                got = [str(x) for x in r.replace(dtstart=d1)]
+                want = [str(x) for x in R.rrule(freq, dtstart=d1, count=4)]
+                ctx.case(("replace-dtstart", freq, cache, delta))
+                ctx.count("replace_targeted")
+                if got != want:
+                    ctx.violation("rrule(%s, dtstart=%s, count=4).replace(dtstart=%s) yields %s, the rule built with the new dtstart yields %s"
+                                  % (R.FREQNAMES[freq], d0, d1, got, want),
+                                  {"kind": "replace", "params": {"freq": freq, "dtstart": str(d0), "count": 4}, "kw": {"dtstart": str(d1)}},
+                                  {"impl": got, "merged": want})
     for _ in range(ctx.budget(150, 1500)):
         p = rrlib.random_rule_params(rng)
         kw = {}
@@ -229,29 +248,50 @@ def recorded_wire(r, kind):
 
 
 def corr_replace(ctx, rng):
-    """r.replace(**kw) on real rules vs construct(recorded arguments (+) kw) in the model"""
+    """r.replace(**kw) on real rules vs the model, from the ORIGINAL constructor arguments (query.replace:
+    construct(origArgs(a, construct a) (+) kw)) and, for naive rules, also from the recorded arguments read off
+    the object (query.replace_rec)"""
     import warnings
     import props.c01 as c01
     reqs, exp = [], []
     tries = 0
-    while len(reqs) < ctx.budget(300, 3000) and tries < 20000:
+    pos = {"freq": 0, "interval": 1, "wkst": 2, "count": 3, "dtstart": 5}
+    pos.update({k: 7 + i for i, k in enumerate(BYK)})
+    # targeted: plain rules (no BY part: weekday / month day / month are DERIVED from dtstart and must not be
+    # recorded) with dtstart replaced by each of the next 8 days and by a day in another month
+    targeted = []
+    for freq in range(7):
+        for delta in list(range(1, 9)) + [40]:
+            targeted.append((freq, delta))
+    tq = list(targeted)
+    while (tq or len(reqs) < ctx.budget(500, 5000)) and tries < 40000:
         tries += 1
         c = c01.gen_case(rng)
         c2 = c01.gen_case(rng)
-        if c["kind"] not in ("naive", "date") or c.get("until") is not None and c.get("until_isdate"):
-            continue
+        forced = None
+        if tq:
+            freq, delta = tq.pop()
+            for cc in (c, c2):
+                cc.update({k: None for k in BYK})
+                cc.update({"kind": "naive", "until": None, "freq": freq, "interval": 1, "count": 3, "wkst": None})
+            d0 = datetime.datetime(2021, 3, 3, 4, 5, 6)
+            d1 = d0 + datetime.timedelta(days=delta)
+            c["dtstart"] = [d0.year, d0.month, d0.day, d0.hour, d0.minute, d0.second, 0]
+            c2["dtstart"] = [d1.year, d1.month, d1.day, d1.hour, d1.minute, d1.second, 0]
+            forced = ["dtstart"]
         try:
             with warnings.catch_warnings():
                 warnings.simplefilter("ignore")
                 r = c01.build(c)
         except Exception:
             continue
-        keys = rng.sample(["freq", "interval", "wkst", "count"] + BYK, rng.randint(0, 3))
+        pool = ["freq", "interval", "wkst", "count"] + BYK
+        if c["kind"] == "naive" and c2["kind"] == "naive":
+            pool += ["dtstart", "dtstart"]
+        keys = forced or rng.sample(pool, rng.randint(0, 3))
         kw2 = c01.kwargs_of(c2)
         kw_py, kwt = {}, ["_"] * 17
         w2 = c01.wire(c2).split()
-        pos = {"freq": 0, "interval": 1, "wkst": 2, "count": 3}
-        pos.update({k: 7 + i for i, k in enumerate(BYK)})
         for k in keys:
             if k == "freq":
                 kw_py["freq"] = c2["freq"]
@@ -260,21 +300,30 @@ def corr_replace(ctx, rng):
             else:
                 kw_py[k] = None
             kwt[pos[k]] = w2[pos[k]]
+            if k == "dtstart":
+                kwt[6] = w2[6]
         if "count" in kw_py and kw_py["count"] is not None and r._until is not None:
             continue                                    # count+until: deprecation warning path, not part of the claim
+        if c.get("bysetpos") is not None and len(c["bysetpos"]) == 0:
+            ctx.count("replace_bysetpos_empty_literal")
         try:
             with warnings.catch_warnings():
                 warnings.simplefilter("ignore")
                 out = "ok " + c01.impl_rule_dump(r.replace(**kw_py))
         except Exception as ex:
             out = "err " + type(ex).__name__
-        reqs.append("query.replace %s %s" % (" ".join(recorded_wire(r, c["kind"])), " ".join(kwt)))
+        reqs.append("query.replace %s %s" % (c01.wire(c), " ".join(kwt)))
         exp.append(out)
+        if c["kind"] == "naive" and not c.get("until_isdate"):
+            reqs.append("query.replace_rec %s %s" % (" ".join(recorded_wire(r, c["kind"])), " ".join(kwt)))
+            exp.append(out)
         ctx.count("replace_keys_%d" % len(keys))
+        for k in keys:
+            ctx.count("replace_kw_" + k)
     got = ctx.driver(reqs)
     for q, e, g in zip(reqs, exp, got):
         if e != g:
-            ctx.mismatch("query.replace", {"request": q}, e, g)
+            ctx.mismatch(q.split()[0], {"request": q}, e, g)
     ctx.traces += len(reqs)
     ctx.count("corr_replace_cases", len(reqs))
 
